@@ -1326,3 +1326,40 @@ func MustDo(pred func(ssa.Instruction) bool) func(ssa.Instruction) bool {
 	}
 	return func(in ssa.Instruction) bool { return instr(in, 0) }
 }
+
+// LeavesDeep is Leaves that looks through single-result calls of repository functions: a leaf
+// that is such a call is replaced by the leaves of what the callee can return (two levels), so a
+// value computed by an extracted helper is judged by the expressions the helper returns.
+func LeavesDeep(v ssa.Value, at *ssa.BasicBlock) []Leaf { return leavesDeep(v, at, 0) }
+
+func leavesDeep(v ssa.Value, at *ssa.BasicBlock, depth int) []Leaf {
+	var out []Leaf
+	for _, lf := range Leaves(v, at) {
+		call, ok := Forwarded(lf.V).(*ssa.Call)
+		if !ok || depth >= 2 {
+			out = append(out, lf)
+			continue
+		}
+		g := call.Call.StaticCallee()
+		if g == nil || g.Blocks == nil || g.Pkg == nil || !strings.HasPrefix(g.Pkg.Pkg.Path(), ModPath) || g.Signature.Results().Len() != 1 {
+			out = append(out, lf)
+			continue
+		}
+		for _, b := range g.Blocks {
+			if b == g.Recover {
+				continue
+			}
+			for _, in := range b.Instrs {
+				ret, isRet := in.(*ssa.Return)
+				if !isRet || len(ret.Results) != 1 {
+					continue
+				}
+				for _, l2 := range leavesDeep(Forwarded(ret.Results[0]), ret.Block(), depth+1) {
+					fs := append(append([]Fact{}, lf.Facts...), l2.Facts...)
+					out = append(out, Leaf{V: l2.V, Facts: fs})
+				}
+			}
+		}
+	}
+	return out
+}
